@@ -2385,6 +2385,133 @@ func TestVerifC11Concurrent(t *testing.T) {
 	}
 }
 
+// TestVerifC11TwoNodeCodes: two nodes (each with its own connection-code service) over one
+// store; a client on each node generates connection codes at the same moment through the
+// real handlers, for a range of offsets between the two services' issue counts. Afterwards
+// connection_code_list of each client must contain only codes that client generated.
+func TestVerifC11TwoNodeCodes(t *testing.T) {
+	run := vk.Start(t, "C11", "two-node-codes")
+	defer run.Finish()
+	run.Rule("batches b=0..7: before batch b one extra code is generated on node-b (b<5) or node-a (b>=5), shifting the difference of the two services' issue counts through -3..+3; in each batch fresh clients X (node-a) and Y (node-b) generate 6 codes each, pairwise released by a common start signal; distinct by (batch, round); a pair counts as a window when both records carry the same creation millisecond")
+	w := c11NewWorldState(t, run, nil, c11State{TwoNode: true})
+	defer w.close()
+	seq := 0
+	data := func(c *miniClient, ct packet.CommandType, body any) (map[string]any, string) {
+		seq++
+		cmd := &packet.CommandPacket{CommandType: ct, CommandId: fmt.Sprintf("c11-2n-%d", seq), CommandBody: c11J(body)}
+		resp, _, _ := c.Command(cmd, 5*time.Second)
+		if resp == nil {
+			return nil, ""
+		}
+		var r struct {
+			Success bool           `json:"success"`
+			Data    map[string]any `json:"data"`
+		}
+		if json.Unmarshal([]byte(resp.CommandBody), &r) != nil || !r.Success {
+			return nil, resp.CommandBody
+		}
+		return r.Data, resp.CommandBody
+	}
+	gen := func(c *miniClient, tag string) string {
+		d, _ := data(c, packet.ConnectionCodeGenerate, map[string]any{"target_address": "tcp://" + tag + ".internal:80", "activation_ttl": 600, "mapping_ttl": 3600, "description": tag})
+		code, _ := d["code"].(string)
+		return code
+	}
+	pa, pb := w.n.NewClient(""), w.nb.NewClient("")
+	rounds := run.Pick(6, 9)
+	for b := 0; b < 8; b++ {
+		if b > 0 {
+			if b < 5 {
+				gen(pb, fmt.Sprintf("pre-b-%d", b))
+			} else {
+				gen(pa, fmt.Sprintf("pre-a-%d", b))
+			}
+		}
+		x, y := w.n.NewClient(""), w.nb.NewClient("")
+		own := map[*miniClient]map[string]bool{x: {}, y: {}}
+		for r := 0; r < rounds; r++ {
+			run.Case(fmt.Sprintf("two-node-generate|batch=%d|round=%d", b, r), nil)
+			start := make(chan struct{})
+			res := make(chan [2]string, 2)
+			for i, c := range []*miniClient{x, y} {
+				go func(i int, c *miniClient) {
+					<-start
+					// each goroutine uses its own id space for command ids
+					cmd := &packet.CommandPacket{CommandType: packet.ConnectionCodeGenerate, CommandId: fmt.Sprintf("c11-2n-g-%d-%d-%d", b, r, i),
+						CommandBody: c11J(map[string]any{"target_address": fmt.Sprintf("tcp://own-%d-%d-%d.internal:80", b, r, i), "activation_ttl": 600, "mapping_ttl": 3600})}
+					resp, _, _ := c.Command(cmd, 5*time.Second)
+					code := ""
+					if resp != nil {
+						var rr struct {
+							Data struct {
+								Code string `json:"code"`
+							} `json:"data"`
+						}
+						_ = json.Unmarshal([]byte(resp.CommandBody), &rr)
+						code = rr.Data.Code
+					}
+					res <- [2]string{fmt.Sprint(i), code}
+				}(i, c)
+			}
+			close(start)
+			var codes [2]string
+			for i := 0; i < 2; i++ {
+				select {
+				case v := <-res:
+					if v[0] == "0" {
+						codes[0] = v[1]
+					} else {
+						codes[1] = v[1]
+					}
+				case <-time.After(15 * time.Second):
+					run.Count("watchdog", 1)
+				}
+			}
+			run.Eval(1)
+			if codes[0] == "" || codes[1] == "" {
+				run.Count("generate_refused", 1)
+				continue
+			}
+			own[x][codes[0]], own[y][codes[1]] = true, true
+			run.Count("concurrent_generate_pairs", 1)
+			run.Distinct(fmt.Sprintf("%d/%d", b, r))
+			ka, ea := w.n.CCS.GetConnectionCode(codes[0])
+			kb, eb := w.nb.CCS.GetConnectionCode(codes[1])
+			if ea == nil && eb == nil && ka.CreatedAt.UnixMilli() == kb.CreatedAt.UnixMilli() {
+				run.Count("pairs_created_in_same_millisecond", 1)
+			}
+		}
+		for _, c := range []*miniClient{x, y} {
+			d, raw := data(c, packet.ConnectionCodeList, map[string]any{})
+			if d == nil {
+				run.Count("list_refused", 1)
+				continue
+			}
+			run.Count("lists_checked", 1)
+			items, _ := d["codes"].([]any)
+			for _, it := range items {
+				m, _ := it.(map[string]any)
+				code, _ := m["code"].(string)
+				if code != "" && !own[c][code] {
+					other := x
+					if c == x {
+						other = y
+					}
+					run.Violation("C11:leak|cmd=ConnectionCodeList|nodes=2|requester=stranger|history=concurrent-generate", map[string]any{
+						"requester_client": c.ClientID, "requester_node": c.n.NodeID, "own_codes": own[c], "foreign_code_listed": code,
+						"generated_by_other_client": own[other][code], "other_client": other.ClientID, "other_node": other.n.NodeID, "batch": b, "list_response": raw})
+				}
+			}
+		}
+	}
+	run.Floor("concurrent_generate_pairs", 30)
+	run.Floor("pairs_created_in_same_millisecond", 8)
+	run.Floor("lists_checked", 12)
+	if run.Counter("watchdog") > 0 {
+		run.Floor("watchdog_free", 1)
+	}
+}
+
 // TestVerifC11AnswerSpoof: the response half of the DNS forwarders. V1 (a party) has a
 // DNS request pending at its target V2; before V2 answers, another connection sends a
 // CommandResp with the same CommandId. The answer that reaches V1 must be V2's.
